@@ -414,6 +414,14 @@ def value_rules(rep, an, fi, s, v, guards, where):
         rep.violated("R-C07-f", where, cons, "stored array has dtype %s, not uint32" % f.dtype, witness={"inputs": "validate() raises: Index[...] is of dtype int64"})
     else:
         rep.undecided("R-C07-f", where, cons, "dtype not determined")
+    # R-C07-de (RANGE): rows taken over from an existing index are only in range of an index with the SAME row count
+    if s.target[0] == "ctor":
+        rc = _ctor_rowcount(s.target[1], an.I)
+        lv = set(prov_leaves(f.prov))
+        if rc is not None and rc[0] == "term" and lv and lv <= {"inherited", "subset", "kernel", "merged"}:
+            rep.violated("R-C07-de", where, cons + " (range)",
+                         "the rows keep the numbers they had in the source index, but the index being built has %s rows: ids can be out of range (they must be renumbered)" % tm.show(rc[1])[:40],
+                         witness={"inputs": "iindex.from_array([7, 8, 7, 8, 7, 8]).filtered(mask=[T, T, F, T, T, F], new_length=4): entry 7 keeps rows [0, 4] although the result has 4 rows"})
     # R-C07-de
     tag = f.prov[0]
     leaves = prov_leaves(f.prov)
@@ -423,6 +431,42 @@ def value_rules(rep, an, fi, s, v, guards, where):
         rep.proved("R-C07-de", where, cons, "; ".join(sorted({PROV_OK[p] for p in leaves}))[:240])
     else:
         rep.undecided("R-C07-de", where, cons, "provenance of the stored rows not recognised: %s" % (f.prov,))
+
+
+def _ctor_rowcount(cev, I):
+    """Row count of the index a constructor call builds: ('same', X) if it is X.shape[0] of an existing index X,
+    ('term', e) for another expression, None if not determined."""
+    args = cev["args"]
+    shape = args[2] if len(args) > 2 else dict(cev["kwargs"]).get("shape")
+    if shape is None:
+        return None
+
+    def first(t):
+        if t.op == "attr" and t.args[1] == "shape":
+            return ("same", t.args[0])
+        if t.op == "tuple" and t.args:
+            return classify(t.args[0])
+        if t.op == "binop" and t.args[0] == "+":
+            return first(t.args[1])
+        if t.op == "call" and tm.callee_name(t) == "builtins.tuple" and t.args[1]:
+            x = t.args[1][0]
+            for a in tm.alts(x):
+                if a.op == "alloc" and a in I.heap and I.heap[a].get("elts"):
+                    return classify(I.heap[a]["elts"][0])
+            return None
+        if t.op in ("phi", "ifexp"):
+            rs = [first(a) for a in tm.alts(t)]
+            return rs[0] if rs and all(r == rs[0] for r in rs) else None
+        return None
+
+    def classify(e):
+        if e.op == "sub" and e.args[0].op == "attr" and e.args[0].args[1] == "shape" and tm.is_const(e.args[1], 0):
+            return ("same", e.args[0].args[0])
+        if e.op in ("param", "call", "binop", "const"):
+            return ("term", e)
+        return None
+
+    return first(shape)
 
 
 def _maybe_empty(prov):
